@@ -72,7 +72,10 @@ def rules_c04(prop, repo):
     # right operand first); every path with the left one not an identity and the right one an identity hands back the left one
     id1 = [(v, pc) for v, pc in rs if zt(pc, p1.fields[2].vid) is True]
     id2 = [(v, pc) for v, pc in rs if zt(pc, p1.fields[2].vid) is False and zt(pc, p2.fields[2].vid) is True]
-    ok = bool(id1) and all(same_point(v, p2) for v, _ in id1) and bool(id2) and all(same_point(v, p1) for v, _ in id2)
+    # … and no path gets anywhere without having asked both questions (an operand whose identity status was never looked at would
+    # be fed to a formula)
+    asked = all(zt(pc, p1.fields[2].vid) is not None and (zt(pc, p1.fields[2].vid) is True or zt(pc, p2.fields[2].vid) is not None) for _, pc in rs)
+    ok = bool(id1) and all(same_point(v, p2) for v, _ in id1) and bool(id2) and all(same_point(v, p1) for v, _ in id2) and asked
     R.check(ok, "%s:add:identity" % prop, "O + B = B and A + O = A are not the first two exits returning the other operand unchanged (paths: %d / %d)" % (len(id1), len(id2)), b.file_line(), b.rec["path"],
             sample={"O+B": "returns B unchanged" if ok else None, "A+O": "returns A unchanged" if ok else None})
     # arms by representation
